@@ -6,15 +6,129 @@ package main
 // expectations by `decide` in Goat/Tie/C08.lean.  verifhook.Yield call sites are skipped.
 
 import (
+	"bytes"
 	"fmt"
 	"go/ast"
 	"go/parser"
+	"go/printer"
 	"go/token"
 	"os"
 	"path/filepath"
 	"sort"
 	"strings"
 )
+
+// ---- control skeleton: the body of a function as a list of lines, one per statement head, with the
+// nesting made explicit ("{" / "}" / "} else {"), expressions printed by go/printer, comments and
+// verifhook.Yield call sites dropped.  This pins WHERE the kill flag is tested, that every callback /
+// listing error reaches lifecycle.Error on every path, and what Wait waits for.
+
+func src(fset *token.FileSet, n ast.Node) string {
+	var b bytes.Buffer
+	printer.Fprint(&b, fset, n)
+	return strings.Join(strings.Fields(b.String()), " ")
+}
+
+func isYield(s ast.Stmt) bool {
+	var call *ast.CallExpr
+	switch x := s.(type) {
+	case *ast.ExprStmt:
+		call, _ = x.X.(*ast.CallExpr)
+	case *ast.DeferStmt:
+		call = x.Call
+	}
+	return call != nil && exprStr(call.Fun) == "verifhook.Yield"
+}
+
+func ctl(fset *token.FileSet, stmts []ast.Stmt, out *[]string) {
+	emit := func(s string) { *out = append(*out, s) }
+	for _, st := range stmts {
+		if isYield(st) {
+			continue
+		}
+		switch x := st.(type) {
+		case *ast.IfStmt:
+			for cur := x; ; {
+				h := "if "
+				if cur.Init != nil {
+					h += src(fset, cur.Init) + "; "
+				}
+				emit(h + src(fset, cur.Cond) + " {")
+				ctl(fset, cur.Body.List, out)
+				if cur.Else == nil {
+					emit("}")
+					break
+				}
+				if e, ok := cur.Else.(*ast.IfStmt); ok {
+					emit("} else")
+					cur = e
+					continue
+				}
+				emit("} else {")
+				ctl(fset, cur.Else.(*ast.BlockStmt).List, out)
+				emit("}")
+				break
+			}
+		case *ast.ForStmt:
+			h := "for"
+			if x.Init != nil || x.Cond != nil || x.Post != nil {
+				h += " " + src(fset, &ast.ForStmt{Init: x.Init, Cond: x.Cond, Post: x.Post, Body: &ast.BlockStmt{}})
+				h = strings.TrimSuffix(strings.TrimSuffix(h, "{ }"), "{}")
+				h = strings.TrimSpace(strings.TrimPrefix(h, "for for"))
+				h = "for " + h
+			}
+			emit(strings.TrimSpace(h) + " {")
+			ctl(fset, x.Body.List, out)
+			emit("}")
+		case *ast.RangeStmt:
+			h := "for "
+			if x.Key != nil {
+				h += src(fset, x.Key)
+				if x.Value != nil {
+					h += ", " + src(fset, x.Value)
+				}
+				h += " " + x.Tok.String() + " "
+			}
+			emit(h + "range " + src(fset, x.X) + " {")
+			ctl(fset, x.Body.List, out)
+			emit("}")
+		case *ast.SelectStmt:
+			emit("select {")
+			for _, c := range x.Body.List {
+				cc := c.(*ast.CommClause)
+				if cc.Comm == nil {
+					emit("default:")
+				} else {
+					emit("case " + src(fset, cc.Comm) + ":")
+				}
+				ctl(fset, cc.Body, out)
+			}
+			emit("}")
+		case *ast.BlockStmt:
+			emit("{")
+			ctl(fset, x.List, out)
+			emit("}")
+		case *ast.GoStmt:
+			if _, ok := x.Call.Fun.(*ast.FuncLit); ok {
+				emit("go func")
+			} else {
+				emit(src(fset, x))
+			}
+		default:
+			emit(src(fset, st))
+		}
+	}
+}
+
+func ctlOf(fset *token.FileSet, f *ast.File, recv, name string) []string {
+	fd := findFunc(f, recv, name)
+	if fd == nil || fd.Body == nil {
+		return []string{"missing"}
+	}
+	var out []string
+	ctl(fset, fd.Body.List, &out)
+	return out
+}
 
 func exprStr(e ast.Expr) string {
 	switch x := e.(type) {
@@ -158,5 +272,60 @@ func facts() {
 	fmt.Printf("def processList : List String := %s\n", leanList(get(prod, "Producer", "processList")))
 	fmt.Printf("def processDir : List String := %s\n", leanList(get(prod, "Producer", "processDir")))
 	fmt.Printf("def processFile : List String := %s\n", leanList(get(prod, "Producer", "processFile")))
+	// control skeletons (kill tests, error reporting, Wait, the lifecycle)
+	lcf, err := parser.ParseFile(fset, filepath.Join(repo, "workers", "jobsync", "lifecycle.go"), nil, 0)
+	if err != nil {
+		fmt.Fprintln(os.Stderr, err)
+		os.Exit(3)
+	}
+	fmt.Printf("def consumerBody : List String := %s\n", leanList(ctlOf(fset, cons, "Consumer", "Loop")))
+	fmt.Printf("def producerLoopBody : List String := %s\n", leanList(ctlOf(fset, prod, "Producer", "Loop")))
+	fmt.Printf("def processListBody : List String := %s\n", leanList(ctlOf(fset, prod, "Producer", "processList")))
+	fmt.Printf("def processDirBody : List String := %s\n", leanList(ctlOf(fset, prod, "Producer", "processDir")))
+	fmt.Printf("def processFileBody : List String := %s\n", leanList(ctlOf(fset, prod, "Producer", "processFile")))
+	fmt.Printf("def waitBody : List String := %s\n", leanList(ctlOf(fset, loop, "Loop", "Wait")))
+	fmt.Printf("def killSlotBody : List String := %s\n", leanList(ctlOf(fset, loop, "Loop", "KillSlot")))
+	fmt.Printf("def errorsBody : List String := %s\n", leanList(ctlOf(fset, loop, "Loop", "Errors")))
+	// Loop.Run: how the lifecycle is created and which scope events reach KillSlot
+	runLc := []string{}
+	if fd := findFunc(loop, "Loop", "Run"); fd != nil {
+		ast.Inspect(fd.Body, func(n ast.Node) bool {
+			if c, ok := n.(*ast.CallExpr); ok {
+				switch exprStr(c.Fun) {
+				case "jobsync.NewLifecycle", "loop.scope.On":
+					runLc = append(runLc, src(fset, c))
+				}
+			}
+			return true
+		})
+	}
+	fmt.Printf("def runLifecycle : List String := %s\n", leanList(runLc))
+	fmt.Printf("def lcError : List String := %s\n", leanList(ctlOf(fset, lcf, "Lifecycle", "Error")))
+	fmt.Printf("def lcKill : List String := %s\n", leanList(ctlOf(fset, lcf, "Lifecycle", "Kill")))
+	fmt.Printf("def lcIsKilled : List String := %s\n", leanList(ctlOf(fset, lcf, "Lifecycle", "IsKilled")))
+	fmt.Printf("def lcErrors : List String := %s\n", leanList(ctlOf(fset, lcf, "Lifecycle", "Errors")))
+	fmt.Printf("def lcNew : List String := %s\n", leanList(ctlOf(fset, lcf, "", "NewLifecycle")))
+	// the constants the model's capacities and deadline stand for
+	consts := []string{}
+	for _, spec := range []struct{ file, name string }{{"filesystem/fsloop/main.go", "ChanSize"}, {"filesystem/fsloop/main.go", "StepClose"}, {"workers/main.go", "DefaultTimeout"}} {
+		cf, err := parser.ParseFile(fset, filepath.Join(repo, spec.file), nil, 0)
+		if err != nil {
+			consts = append(consts, spec.name+"=missing")
+			continue
+		}
+		val := "missing"
+		ast.Inspect(cf, func(n ast.Node) bool {
+			if vs, ok := n.(*ast.ValueSpec); ok {
+				for i, id := range vs.Names {
+					if id.Name == spec.name && i < len(vs.Values) {
+						val = src(fset, vs.Values[i])
+					}
+				}
+			}
+			return true
+		})
+		consts = append(consts, spec.name+"="+val)
+	}
+	fmt.Printf("def consts : List String := %s\n", leanList(consts))
 	fmt.Println("end Goat.Tie.ExtractedC08")
 }
